@@ -65,7 +65,8 @@ class Report:
     def violation(self, clause, cls, witness):
         """Report a property violation.  cls is the class computed by the specification-side classifier
         (or '' if unclassified).  If a known finding lists this (clause, class) the violation is a KNOWN-FINDING."""
-        for f in self.findings:
+        # findings recorded for this property first, then consequences recorded under another property
+        for f in sorted(self.findings, key=lambda x: 0 if x.get("property") == self.pid.rstrip("X") else 1):
             if f.get("status", "open") != "open":
                 continue
             if f.get("class") == cls and cls and (not f.get("clause") or f.get("clause") == clause):
